@@ -304,6 +304,26 @@ def migrateAtomic (s : St) (g : GId) (n : Name) (target : WId) (deployOk : Bool)
     else s
   | _, _ => s
 
+/-! ## reconcile -/
+
+/-- `GroupStatus::Running` as `update_status` computes it: at least one placement, all of them running -/
+def St.groupRunning (s : St) (g : GId) : Bool :=
+  let ps := s.placements.filter (·.gid == g)
+  !ps.isEmpty && ps.all (fun r => decide (r.status = .running))
+
+/-- what `reconcile_placements` re-deploys: running placements of running groups whose worker is available
+but does not list the pipeline among its assigned ones -/
+def reconcileCandidates (s : St) : List PRec :=
+  s.placements.filter fun r =>
+    s.groupRunning r.gid && decide (r.status = .running) &&
+    (match s.getW r.worker with
+     | some w => w.isAvailable && !w.assigned.contains r.name
+     | none => false)
+
+/-- `reconcile_placements` when every re-deploy succeeds (`redeploy = true`) or every one fails -/
+def reconcile (s : St) (redeploy : Bool) : St :=
+  if redeploy then (reconcileCandidates s).foldl (fun acc r => acc.updW r.worker (Worker.push r.name)) s else s
+
 /-! ## the transition system -/
 
 /-- the atomic state-changing calls; plans are pure functions of the state and therefore not steps -/
